@@ -55,6 +55,12 @@ pub fn gen_swarm_case(seed: u64, idx: u64, uni: &UniCfg) -> Case {
     // E: a lookup has ~100 windows; K: a handful
     let p_attack = if uni.no_openat2 { *rng.pick(&[20u64, 50, 100, 200]) } else { *rng.pick(&[200u64, 400, 700]) };
     c.plan = Plan { seeded: Some(Seeded { seed: rng.next(), p_switch: 0, p_attack, p_fault: 0, max_attacks: rng.range(1, 8) as usize, pct_depth: 0 }), ..Default::default() };
+    // K: the in-kernel walk is one step; what libpathrs adds is the EAGAIN retry
+    // loop - drive it with injected EAGAIN runs so that the attacker gets
+    // windows between the retries
+    if !uni.no_openat2 && rng.chance(1, 3) {
+        c.plan.eagain = Some((rng.below(4) as usize, *rng.pick(&[1usize, 2, 3, 8, 15, 16, 20])));
+    }
     c.extra = json!({"race_world": race});
     c
 }
